@@ -187,7 +187,8 @@ func checkAVCSlice(c avcSliceCase) *harness.Fail {
 
 func genAVCSliceCase(rt *rapid.T) avcSliceCase {
 	var c avcSliceCase
-	c.SPS, c.PPS, c.Slice, _, _ = esgen.GenAVCSliceSet(rt)
+	// PBBias: P, B and I about equally often (the plain generator, which C16 uses, ends 58 % of the slices as I/SI)
+	c.SPS, c.PPS, c.Slice, _, _ = esgen.GenAVCSliceSetOpt(rt, esgen.AVCSliceOpts{PBBias: true})
 	return c
 }
 
